@@ -472,6 +472,13 @@ def build_inlined_view(c):
                 c.ithir[name] = nt
         c.inlined = sorted(set(inl.inlined))
     args_as_fields(c)
+    # matches on tuples of flags read as if-chains
+    for name, t in list(c.ithir.items()):
+        if any(x.get('k') == 'Match' and x.get('source') in (None, 'Normal') and isinstance(x.get('scrutinee'), dict) and
+               (x['scrutinee'].get('k') == 'Tuple' or (x['scrutinee'].get('k') in ('Use', 'Scope') and 'Tuple' in str(x['scrutinee'].get('source', {}).get('k')))) for x in walk(t['body'])):
+            nb = bool_tuple_matches_as_ifs(t['body'])
+            if any(isinstance(x, dict) and x.get('synthetic') == 'bool-tuple-match' for x in _all_nodes(nb)):
+                nt = dict(t); nt['body'] = nb; c.ithir[name] = nt
     # counting while loops read as the `for` loops they spell out
     for name, t in list(c.ithir.items()):
         if any(x.get('k') == 'Loop' and 'ForLoop' not in str(x.get('exp')) for x in walk(t['body'])):
@@ -757,6 +764,76 @@ def split_tuple_lets(body):
         return {k_: (rw(v) if isinstance(v, (dict, list)) else v) for k_, v in x.items()}
     return rw(body)
 
+def bool_tuple_matches_as_ifs(body):
+    """a copy of `body` in which a match on a tuple of Boolean values with literal / wildcard patterns reads as the if-chain it abbreviates:
+        match (a, b) { (true, true) => X, (true, false) => Y, (false, _) => Z }   =>   if a && b { X } else if a && !b { Y } else { Z }
+    (first arm that accepts wins, as in the match; the components must be plain reads so that testing them repeatedly changes nothing;
+    the last arm must be irrefutable for the if-chain to be total)"""
+    def peel(x):
+        while isinstance(x, dict) and x.get('k') in ('Use', 'NeverToAny', 'Scope'): x = x.get('source') or x.get('value')
+        return x
+    def plain(e):
+        e = peel(e)
+        while e.get('k') in ('Borrow', 'Deref'): e = peel(e['arg'])
+        if e.get('k') in ('VarRef', 'UpvarRef', 'Literal'): return True
+        if e.get('k') == 'Field': return plain(e['lhs'])
+        return False
+    def bool_pat(p):
+        while p.get('k') in ('Deref', 'DerefPattern'): p = p['sub']
+        if p.get('k') == 'Wild': return 'any'
+        if p.get('k') == 'Constant':
+            cv = str(p.get('value'))
+            if 'true' in cv or '0x01' in cv: return True
+            if 'false' in cv or '0x00' in cv: return False
+        return None
+    def rw(x):
+        if isinstance(x, list): return [rw(y) for y in x]
+        if not isinstance(x, dict): return x
+        o = {k_: (rw(v) if isinstance(v, (dict, list)) else v) for k_, v in x.items()}
+        if o.get('k') == 'Match' and o.get('source') in (None, 'Normal'):
+            sc = peel(o['scrutinee'])
+            if isinstance(sc, dict) and sc.get('k') == 'Tuple' and sc['fields'] and all(plain(f) for f in sc['fields']) and \
+                    all(str((f.get('ty') or {}).get('s')) == 'bool' for f in sc['fields']) and all(a.get('guard') is None for a in o['arms']):
+                rows = []
+                for a in o['arms']:
+                    p = a['pat']
+                    while p.get('k') in ('Deref', 'DerefPattern'): p = p['sub']
+                    if p.get('k') == 'Wild': rows.append((['any'] * len(sc['fields']), a['body'])); continue
+                    if p.get('k') != 'Leaf' or 'adt' in p: return o
+                    vals = ['any'] * len(sc['fields'])
+                    for sp in p['subs']:
+                        b = bool_pat(sp['pat'])
+                        if b is None or sp['field'] >= len(vals): return o
+                        vals[sp['field']] = b
+                    rows.append((vals, a['body']))
+                loc, ty = o.get('loc'), o.get('ty')
+                def cond(vals):
+                    parts = []
+                    for f, v in zip(sc['fields'], vals):
+                        if v == 'any': continue
+                        parts.append(f if v is True else {'k': 'Unary', 'op': 'Not', 'arg': f, 'loc': loc, 'ty': f.get('ty')})
+                    if not parts: return None
+                    c = parts[0]
+                    for q in parts[1:]: c = {'k': 'LogicalOp', 'op': 'And', 'lhs': c, 'rhs': q, 'loc': loc, 'ty': parts[0].get('ty')}
+                    return c
+                # the if-chain is total only if some arm accepts every combination not accepted earlier: require a final all-wildcard arm, or
+                # exhaustiveness by enumeration
+                import itertools
+                n = len(sc['fields'])
+                covered_all = all(any(all(v == 'any' or v == bit for v, bit in zip(vals, combo)) for vals, _ in rows) for combo in itertools.product((True, False), repeat=n))
+                if not covered_all: return o
+                chain = None
+                for vals, body_ in reversed(rows):
+                    c = cond(vals)
+                    if chain is None: chain = body_ if c is None else {'k': 'If', 'cond': c, 'then': body_, 'else': {'k': 'Tuple', 'fields': [], 'loc': loc, 'ty': ty}, 'loc': loc, 'ty': ty, 'synthetic': 'bool-tuple-match'}
+                    elif c is None: chain = body_
+                    else: chain = {'k': 'If', 'cond': c, 'then': body_, 'else': chain, 'loc': loc, 'ty': ty, 'synthetic': 'bool-tuple-match'}
+                if isinstance(chain, dict):
+                    chain = dict(chain); chain['synthetic'] = 'bool-tuple-match'
+                    return chain
+        return o
+    return rw(body)
+
 def counting_whiles_as_for(body):
     """a copy of `body` in which a counting while loop reads as the `for` over a range it spells out:
         let mut i = A; while i < B { BODY; i += 1; }      =>      for i in A..B { BODY }          (`i <= B`  =>  A..=B)
@@ -876,12 +953,24 @@ def unroll_array_loops(body):
         if not isinstance(x, dict): return x
         if x.get('k') in ('VarRef', 'UpvarRef') and x.get('var') in m: return copy.deepcopy(m[x['var']])
         return {k_: (subst(v, m) if isinstance(v, (dict, list)) else v) for k_, v in x.items()}
+    # immutable locals bound to a spelt-out array and used exactly once (as the subject of a loop)
+    array_lets = {}
+    for b_ in walk(body):
+        if b_['k'] != 'Block': continue
+        for st_ in b_['stmts']:
+            if st_['k'] == 'Let' and st_.get('init') is not None and st_.get('else') is None:
+                q_ = st_['pat']
+                while q_.get('k') in ('AscribeUserType',): q_ = q_.get('subpattern') or q_.get('sub')
+                i0_ = peel(st_['init'])
+                if q_.get('k') == 'Binding' and not q_.get('mutable') and q_.get('sub') is None and isinstance(i0_, dict) and i0_.get('k') == 'Array':
+                    if sum(1 for y in walk(body) if y['k'] in ('VarRef', 'UpvarRef') and y['var'] == q_['var']) == 1: array_lets[q_['var']] = i0_
     def rewrite(x):
         if isinstance(x, list): return [rewrite(y) for y in x]
         if not isinstance(x, dict): return x
         if x.get('k') == 'Match' and x.get('source') == 'ForLoopDesugar' and peel(x['scrutinee']).get('k') == 'Call' and callee_decl(peel(x['scrutinee'])) == 'std::iter::IntoIterator::into_iter':
             arr = peel(peel(x['scrutinee'])['args'][0])
             while arr.get('k') == 'Call' and arr.get('args') and (callee_name(arr) or '').split('::')[-1] in ('iter', 'into_iter'): arr = peel(arr['args'][0])
+            if arr.get('k') == 'VarRef' and arr['var'] in array_lets: arr = array_lets[arr['var']]          # `let branches = [(r, False), (l, True)]; for (t, e) in branches`
             inner = [m_ for m_ in walk(x['arms'][0]['body']) if m_['k'] == 'Match' and m_.get('source') == 'ForLoopDesugar']
             if arr.get('k') == 'Array' and arr['fields'] and inner and not any(y['k'] in ('Break', 'Continue', 'Return') for a_ in inner[0]['arms'][1:] for y in walk(a_['body'])):
                 some = [a_ for a_ in inner[0]['arms'] if a_['pat'].get('k') == 'Variant' and a_['pat'].get('variant') == 'Some' and a_['pat'].get('subs')]
